@@ -1,0 +1,49 @@
+//! Verification hooks. Compiled only with the `verif_hooks` feature; nothing in
+//! the library depends on it when the feature is off.
+
+/// A virtual clock. When armed, `utils::curr_time_millis`, `utils::curr_time_nanos`
+/// read it and `utils::sleep_for_ms`/`utils::sleep_for_ns` advance it instead of
+/// blocking the calling thread.
+pub mod clock {
+    use std::sync::atomic::{AtomicBool, AtomicU64, Ordering};
+
+    static ARMED: AtomicBool = AtomicBool::new(false);
+    static NOW_NS: AtomicU64 = AtomicU64::new(0);
+
+    /// Arm the clock at `ns` nanoseconds since the epoch.
+    pub fn arm(ns: u64) {
+        NOW_NS.store(ns, Ordering::SeqCst);
+        ARMED.store(true, Ordering::SeqCst);
+    }
+
+    pub fn disarm() {
+        ARMED.store(false, Ordering::SeqCst);
+    }
+
+    pub fn set_ns(ns: u64) {
+        NOW_NS.store(ns, Ordering::SeqCst);
+    }
+
+    pub fn advance_ns(ns: u64) {
+        NOW_NS.fetch_add(ns, Ordering::SeqCst);
+    }
+
+    /// `Some(now)` when the clock is armed.
+    pub fn now_ns() -> Option<u64> {
+        if ARMED.load(Ordering::SeqCst) {
+            Some(NOW_NS.load(Ordering::SeqCst))
+        } else {
+            None
+        }
+    }
+
+    /// Advances the clock and returns true when armed; returns false otherwise.
+    pub fn sleep_ns(ns: u64) -> bool {
+        if ARMED.load(Ordering::SeqCst) {
+            NOW_NS.fetch_add(ns, Ordering::SeqCst);
+            true
+        } else {
+            false
+        }
+    }
+}
